@@ -299,7 +299,9 @@ class PoolScenario(Scenario):
                             out.append(getattr(a, nm))
                         except Exception:
                             pass
-                    for nm in ("bin_entries", "bin_centers", "bin_edges", "num_bins", "bin_width", "bin_labels"):
+                    # bin_entries / bin_edges / bin_centers are not called: on a sparse histogram that holds +-inf they
+                    # enumerate 2**64 bins (C13's territory)
+                    for nm in ("num_bins", "bin_width", "bin_labels"):
                         m = getattr(a, nm, None)
                         if callable(m):
                             try:
